@@ -80,8 +80,10 @@ DefAccepts(c) == HeaderOK(c.hd, c.hv) /\ BodyAccepts(c)
 (* text is valid) -- whether it is required or not, and also when its text is empty: a header sent without a value is   *)
 (* PRESENT; one that is not sent must not be required.  Headers the definition does not declare are ignored.  Where the *)
 (* two readings of an empty piece disagree the verdict is open (neither HdrAccepts nor HdrRejects).                     *)
-HdrGood(h) == IF h.present THEN TextMustAccept(h.hs, h.cs, h.explode) ELSE ~h.hreq
-HdrBad(h)  == IF h.present THEN TextMustReject(h.hs, h.cs, h.explode) ELSE h.hreq
+(* A definition under the name Content-Type (any letter case) is ignored (OAS 3.0.3 Response Object).                    *)
+IsCT(name) == name \in {"Content-Type", "content-type", "CONTENT-TYPE"}
+HdrGood(h) == IsCT(h.name) \/ IF h.present THEN TextMustAccept(h.hs, h.cs, h.explode) ELSE ~h.hreq
+HdrBad(h)  == ~IsCT(h.name) /\ IF h.present THEN TextMustReject(h.hs, h.cs, h.explode) ELSE h.hreq
 HdrAccepts(c) == (\A i \in DOMAIN c.hdrs : HdrGood(c.hdrs[i])) /\ BodyAccepts(c)
 HdrRejects(c) == (\E i \in DOMAIN c.hdrs : HdrBad(c.hdrs[i])) \/ ~BodyAccepts(c)
 
